@@ -510,13 +510,18 @@ func (e2eSlice) Gen(r *rand.Rand, _ int, tier string) ([]string, []string) {
 					n = 2
 				}
 				var pays, sizes, durs, tocs []string
+				opusTotal := int64(0)
 				for i := 0; i < n; i++ {
 					pay++
 					pays = append(pays, strconv.Itoa(pay))
 					if t.codec == "opus" {
 						cfg := 16 // 2.5 ms
+						if n > 1 && r.Intn(2) == 0 {
+							cfg = 17 // 5 ms: packets of different durations inside one WriteOpus call
+						}
 						tocs = append(tocs, strconv.Itoa(cfg<<3))
 						durs = append(durs, strconv.FormatInt(opusFrame(cfg), 10))
+						opusTotal += opusFrame(cfg)
 						sizes = append(sizes, strconv.Itoa(6+fill))
 					} else {
 						sizes = append(sizes, strconv.Itoa(5+fill))
@@ -527,6 +532,9 @@ func (e2eSlice) Gen(r *rand.Rand, _ int, tier string) ([]string, []string) {
 					op += " durs=" + strings.Join(durs, ",") + " tocs=" + strings.Join(tocs, ",")
 				}
 				step := t.step * int64(n)
+				if t.codec == "opus" && t.step == 120 {
+					step = opusTotal
+				}
 				if jitter && !t.multi && !(t.codec == "opus" && n > 1) {
 					step += int64(r.Intn(int(t.step/2)+1)) - t.step/4
 					if step < 1 {
